@@ -1017,6 +1017,217 @@ def check_pooled(case):
             shutil.rmtree(tmp, ignore_errors=True)
 
 
+# ---- a registry that grows between the evaluations of one process -------------------------------------------
+#
+# The dependency relation is not fixed when a process starts evaluating: an implementation of a registry
+# point is registered whenever a spec package is loaded (a SpecSet subclass that defines a datasource under
+# the registry point's name -> dr.add_dependency(point, datasource)) - late load_components / -p packages, the
+# interactive shell, a second spec set for another kind of archive.  Everything the engine derives from the
+# relation (get_dependency_graph, determine_components on a list / set / single component, the per-group
+# graphs in dr.COMPONENTS, run_order, the sub-graph split of run_incremental / run_all) has to follow.  A
+# history here is a list of steps over ONE set of generated components: before step k the implementations
+# whose stage is k are registered (stage 0: before the first step; a registry point may get one or two
+# implementations, at different stages or never), then the step either asks for dependency graphs or evaluates
+# (fresh broker) through a generated entry point and shape of `components`.  Every evaluation has to satisfy
+# the property with respect to the dependencies declared at that moment.
+
+EVOLVE_ENTRIES = ["run", "run", "run", "run_incremental", "run_all", "run_all_pool"]
+EVOLVE_SHAPES = ["list", "list", "list", "single", "set", "harness_full", "group"]
+EVOLVE_TYPES = dyn.ALL_TYPES + ["regpoint"] * 3 + ["datasource"] * 3
+
+
+def _above(case, roots):
+    """nodes that (transitively) depend on one of roots, and roots themselves."""
+    nodes = case["nodes"]
+    out = set(roots)
+    for i, nd in enumerate(nodes):         # indices are a topological order
+        if dyn.dep_set(nd) & out:
+            out.add(i)
+    return out
+
+
+@st.composite
+def evolving_cases(draw, tier="quick"):
+    case = draw(dyn.graphs(min_nodes=4, max_nodes=10 if tier == "quick" else 14, types=EVOLVE_TYPES,
+                            parts=draw(st.sampled_from([1, 1, 1, 2])), none_seeds=True))
+    draw_prios(draw, case)
+    nodes = case["nodes"]
+    n = len(nodes)
+    nsteps = draw(st.sampled_from([2, 3, 3, 4]))
+    # implementations: the one the graph strategy chose plus, for some registry points, a second one (a
+    # datasource declared earlier that implements nothing yet), each registered at its own stage
+    taken = set(nd["decl"][0][1][0] for nd in nodes if nd["t"] == "regpoint")
+    binds = []
+    for i, nd in enumerate(nodes):
+        if nd["t"] != "regpoint":
+            continue
+        free = [j for j in range(i) if nodes[j]["t"] == "datasource" and j not in taken]
+        if free and draw(st.integers(0, 2)) == 0:
+            j = draw(st.sampled_from(free))
+            taken.add(j)
+            nd["decl"][0][1].append(j)
+        for j in nd["decl"][0][1]:
+            # stage nsteps = never registered during the history
+            binds.append({"rp": i, "impl": j, "stage": draw(st.sampled_from([0] + list(range(1, nsteps)) * 2 + [nsteps]))})
+    case["binds"] = binds
+    late = [bd for bd in binds if 0 < bd["stage"] < nsteps]
+    late_rps = sorted(set(bd["rp"] for bd in late))
+    # a registry point nothing depends on shows little: mostly, a later component is made to use it
+    for r in late_rps:
+        users = [i for i in range(r + 1, n) if nodes[i]["t"] not in ("regpoint", "parser")]
+        if users and not any(r in dyn.dep_set(nd) for nd in nodes) and draw(st.integers(0, 3)):
+            nd = nodes[draw(st.sampled_from(users))]
+            edge = [draw(st.sampled_from(["req", "req", "opt"])), r]
+            nd["decl"] = [d for d in nd["decl"] + [edge] if d[0] != "opt"] + [d for d in nd["decl"] + [edge]
+                                                                              if d[0] == "opt"]
+    # what is asked for: mostly something that reaches a registry point whose implementations change during
+    # the history, or one of those implementations / what depends on them
+    above_rp = sorted(_above(case, late_rps) - set(late_rps))
+    hot = sorted(_above(case, set(late_rps) | set(bd["impl"] for bd in late)))
+    pool = st.sampled_from(above_rp * 3 + hot + list(range(n))) if hot else st.integers(0, n - 1)
+    steps = []
+    for k in range(nsteps):
+        step = {"op": draw(st.sampled_from(["run", "run", "run", "graph"])),
+                "targets": sorted(draw(st.sets(pool, min_size=1, max_size=3)))}
+        if step["op"] == "run":
+            step["entry"] = draw(st.sampled_from(EVOLVE_ENTRIES))
+            step["shape"] = draw(st.sampled_from(EVOLVE_SHAPES))
+            if step["shape"] == "single":
+                step["targets"] = step["targets"][:1]
+        steps.append(step)
+    case["steps"] = steps
+    return case
+
+
+def check_evolving(case):
+    import copy
+    from insights.core import dr
+    nodes0 = case["nodes"]
+    n = len(nodes0)
+    b = dyn.build(case, attach=False)
+    try:
+        comps = b.comps
+        bound = dict((i, []) for i, nd in enumerate(nodes0) if nd["t"] == "regpoint")
+        labels = set()
+        asked = {}                  # registry point -> steps at which something above it was asked for
+        bind_step = {}              # registry point -> stages (>= 1) at which an implementation was added
+
+        def current():
+            cur = dict(case, nodes=copy.deepcopy(nodes0))
+            for i, impls in bound.items():
+                cur["nodes"][i]["decl"] = [["grp", list(impls)]] if impls else []
+            return cur
+
+        for k, step in enumerate(case["steps"]):
+            for bd in case["binds"]:
+                if bd["stage"] == k:
+                    dyn.bind_impl(b, bd["rp"], bd["impl"], "%d_%d" % (bd["rp"], bd["impl"]))
+                    bound[bd["rp"]].append(bd["impl"])
+                    if comps[bd["impl"]] not in dr.get_dependencies(comps[bd["rp"]]):
+                        raise AssertionError("harness: implementation %d was not registered for registry point %d" % (
+                            bd["impl"], bd["rp"]))
+                    if k:
+                        bind_step.setdefault(bd["rp"], []).append(k)
+                        labels.add("late-implementation")
+                        if len(bound[bd["rp"]]) > 1:
+                            labels.add("late-second-implementation")
+            cur = current()
+            nodes = cur["nodes"]
+            targets = step["targets"]
+            reach = dyn.closure(cur, targets)
+            if step["op"] == "graph" or step["shape"] != "harness_full":
+                # registry points reached from another component that is asked for at this step
+                frm = targets if step["op"] == "graph" or step["shape"] != "group" else range(n)
+                for r in bound:
+                    if any(r in dyn.closure(cur, [t]) for t in frm if t != r):
+                        asked.setdefault(r, []).append(k)
+            if step["op"] == "graph":
+                labels.add("op=graph")
+                for t in targets:
+                    g = dr.get_dependency_graph(comps[t])
+                    want = dyn.closure(cur, [t])
+                    got = set(b.index.get(c, -1) for c in g)
+                    if got != want:
+                        raise Violation("step %d: get_dependency_graph(node %d) has components %r, the dependency "
+                                        "closure is %r" % (k, t, sorted(got), sorted(want)), step=k)
+                    for c, deps in g.items():
+                        if set(b.index.get(d, -1) for d in deps) != dyn.dep_set(nodes[b.index[c]]):
+                            raise Violation("step %d: get_dependency_graph(node %d) lists %r as the dependencies of "
+                                            "node %d, declared are %r" % (
+                                                k, t, sorted(b.index.get(d, -1) for d in deps), b.index[c],
+                                                sorted(dyn.dep_set(nodes[b.index[c]]))), step=k)
+                continue
+            # -- an evaluation on a fresh broker -----------------------------------------------------------------
+            entry, shape = step["entry"], step["shape"]
+            labels.add("entry=" + entry)
+            labels.add("shape=" + shape)
+            if shape == "list":
+                components, active = [comps[t] for t in targets], reach
+            elif shape == "set":
+                components, active = set(comps[t] for t in targets), reach
+            elif shape == "single":
+                components, active = comps[targets[0]], reach
+            elif shape == "harness_full":
+                components = dict((c, set(comps[j] for j in dyn.dep_set(nodes[i]))) for i, c in enumerate(comps))
+                active = set(range(n))
+            elif shape == "group":
+                # the registry's own per-group dependency sets (what dr.run() uses for a component group)
+                reg = dr.COMPONENTS[dr.GROUPS.single]
+                components, active = dict((c, reg[c]) for c in comps), set(range(n))
+            else:
+                raise AssertionError(shape)
+            b.log[:] = []
+            b.raised.clear()
+            broker = dr.Broker()
+            broker.store_skips = case["store_skips"]
+            for i in case["seeded"]:
+                broker[comps[i]] = dyn.seed_value(case, i)
+            for i in case["disabled"]:
+                dr.set_enabled(comps[i], False)
+
+            def recorder(c, brk):
+                b.log.append(("obs", b.index.get(c, -1)))
+            broker.add_observer(recorder)
+            try:
+                if entry == "run":
+                    dr.run(components, broker=broker)
+                elif entry == "run_incremental":
+                    list(dr.run_incremental(components, broker=broker))
+                elif entry == "run_all":
+                    dr.run_all(components, broker=broker)
+                elif entry == "run_all_pool":
+                    from concurrent.futures import ThreadPoolExecutor
+                    with ThreadPoolExecutor(2) as pool:
+                        dr.run_all(components, broker=broker, pool=pool)
+                else:
+                    raise AssertionError(entry)
+            except AssertionError:
+                raise
+            except Exception as e:  # noqa
+                raise Violation("step %d: evaluation raised %s: %s" % (k, type(e).__name__, e), step=k)
+            try:
+                check_history(cur, b, broker, graph_nodes=active, part=active, seeded=set(case["seeded"]))
+            except Violation as v:
+                raise Violation("step %d (%s, %s, targets %r; implementations registered so far %r): %s" % (
+                    k, entry, shape, targets, dict((str(r), v2) for r, v2 in sorted(bound.items())), v), step=k)
+        # a component above a registry point was asked for before and after an implementation was added to it
+        nontrivial = any(a < s <= a2 for r in bound for s in bind_step.get(r, []) for a in asked.get(r, [])
+                         for a2 in asked.get(r, []))
+        if nontrivial:
+            labels.add("nontrivial")
+        if any(len(v) > 1 for v in bound.values()):
+            labels.add("two-implementations")
+        if any(not v for v in bound.values()):
+            labels.add("unimplemented-registry-point")
+        return {"nontrivial": nontrivial, "labels": sorted(labels) + prio_labels(b, case)}
+    finally:
+        dyn.cleanup(b)
+
+
+def strat_evolving(tier):
+    return evolving_cases(tier)
+
+
 def strat_pooled(tier):
     return pooled_cases(tier)
 
@@ -1029,7 +1240,8 @@ def strat(tier):
     return cases(tier)
 
 
-SUBS = [Sub("history", check, strategy=strat, quick=2000, thorough=18000, workers_quick=4),
+SUBS = [Sub("history", check, strategy=strat, quick=1850, thorough=18000, workers_quick=4),
+        Sub("evolving", check_evolving, strategy=strat_evolving, quick=300, thorough=5000, workers_quick=4),
         Sub("archive", check_archive, strategy=strat_archive, quick=350, thorough=6000, workers_quick=4),
         Sub("pooled", check_pooled, strategy=strat_pooled, quick=400, thorough=8000, workers_quick=4)]
 
